@@ -176,12 +176,24 @@ RECURSIVE EvItems(_, _, _, _, _)     \* list / set literal items
 RECURSIVE EvMapItems(_, _, _, _, _)
 RECURSIVE EvAnd(_, _, _, _)
 RECURSIVE EvOr(_, _, _, _)
+RECURSIVE Destructure(_, _, _, _, _, _, _)
 RECURSIVE EvCompr(_, _, _, _, _, _)
 RECURSIVE EvCompr2(_, _, _, _, _, _)
 RECURSIVE Apply(_, _, _, _)          \* FuncLambda.execute after Args.setArgs
 RECURSIVE BindParams(_, _, _, _, _)
 
 IsVal(r) == r.o.t = "val"
+
+\* NodeAssignDestructuring / NodeDefDestructuring: missing items are NULL; an assignment needs every name
+\* bound somewhere up the chain (names before the undefined one have been assigned by then) and updates the
+\* nearest binding, a definition binds in the current frame
+Destructure(isDef, ids, vals, i, e, st, last) ==
+  IF i > Len(ids) THEN R(Val(last), st)
+  ELSE LET v == IF i <= Len(vals) THEN vals[i] ELSE Null
+           f == IF isDef THEN e ELSE Lookup(st.envs, e, ids[i])
+       IN IF f = 0 THEN R(RErr, st)
+          ELSE Destructure(isDef, ids, vals, i + 1, e,
+                           H(Put(st, f, ids[i], v), <<IF isDef THEN "put" ELSE "set", ids[i], f>>), v)
 
 \* NodeBlock.evaluate: a = <<stmts, catches, finallys>>; catches are
 \* <<errNode or N("all"..), handler>>
@@ -449,6 +461,11 @@ Ev(node, e, st) ==
               ELSE LET f == Lookup(r.st.envs, e, node.s) IN
                    IF f = 0 THEN R(RErr, r.st)
                    ELSE R(r.o, H(Put(r.st, f, node.s, r.o.v), <<"set", node.s, f>>))
+    [] node.n \in {"dassign", "ddef"} ->                  \* [x, y] = e  /  def [x, y] = e   (a = <<names, e>>)
+         LET r == Ev(node.a[2], e, st) IN                 \* the right side first, then name by name
+         IF ~IsVal(r) THEN r
+         ELSE IF r.o.v.k \notin {"list", "set"} THEN R(RErr, r.st)
+         ELSE Destructure(node.n = "ddef", node.a[1], r.o.v.s, 1, e, r.st, Null)
     [] node.n = "block" -> EvBlock(node, e, st)
     [] node.n = "if" -> EvIf(node, 1, e, st)
     [] node.n = "for" -> EvFor(node, e, st)
